@@ -1,9 +1,10 @@
 /-!
 # Model of the local-directory write transaction (C15)
 
-Mirrors, as coded (after the repair `fix: roll back …` of `write_transaction`):
+Mirrors, as coded (after the repairs `fix: roll back …` of `write_transaction` and `fix: refuse clashing
+temporary file names …` of `open`):
 
-* `capellambse/filehandler/local.py`: `LocalFileHandler.open` (`hOpen`), `write_transaction`
+* `capellambse/filehandler/local.py`: `LocalFileHandler.open` (`hOpen`, with the temp-name check `clash`), `write_transaction`
   (`transaction`: the generator's `try / except / else / finally` as an explicit bracket —
   body, then the commit loop in the `else` branch, then the clean-up loop in `finally`),
   `_tmpname` (the parameter `tmp`);
@@ -31,6 +32,7 @@ inductive Err
   | alreadyWritten     -- RuntimeError("File already written in this transaction")
   | alreadyOpen        -- RuntimeError("Another transaction is already open")
   | noTxn              -- writing outside a transaction (not reachable from `transaction`)
+  | tmpClash           -- RuntimeError("Temporary file name clashes with another file in this transaction")
   deriving DecidableEq, Repr
 
 def Err.isOS : Err → Bool
@@ -92,13 +94,19 @@ def tick (σ : Sched) (ev : Ev P) (s : St P) : St P × Option Fault :=
 
 variable (tmp : P → P) (ord : List P → List P) (σ : Sched)
 
-/-- `LocalFileHandler.open(name, "wb")` inside a transaction: refuse a second write, add the name to
-the set, *then* open the temporary file (in that order, as coded). -/
+/-- the temp-name check of `LocalFileHandler.open` (added by `fix: refuse clashing temporary file
+names …`): `tmppath in ({normpath} | txn | tmps(txn)) or normpath in tmps(txn)` -/
+def clash (l : List P) (p : P) : Bool :=
+  decide (tmp p = p) || l.any (fun o => decide (tmp p = o) || decide (tmp p = tmp o) || decide (p = tmp o))
+
+/-- `LocalFileHandler.open(name, "wb")` inside a transaction: refuse a second write and a temp-name
+clash, add the name to the set, *then* open the temporary file (in that order, as coded). -/
 def hOpen (fr : Frag P) (s : St P) : Res P :=
   match s.txn with
   | none => (s, some .noTxn)
   | some l =>
     if fr.path ∈ l then (s, some .alreadyWritten) else
+    if clash tmp l fr.path then (s, some .tmpClash) else
     match tick σ (.open_ fr.path) { s with txn := some (l ++ [fr.path]) } with
     | (s2, some f) =>
       ({ s2 with fs := if f.eff && !fr.nodir then fsSet s2.fs (tmp fr.path) [] else s2.fs }, some f.err)
@@ -196,6 +204,56 @@ def save (pre : Option Err) (dry : Bool) (frags : List (Frag P)) (s : St P) : Re
   | none => transaction tmp ord σ dry (frags.map Op.frag) s
 
 /-! ### the pinned code before the repair (kept so that a reverted repair is recognisable by name) -/
+
+/-- `open(name, "wb")` without the temp-name check (before `fix: refuse clashing temporary file names`) -/
+def hOpenNoCheck (fr : Frag P) (s : St P) : Res P :=
+  match s.txn with
+  | none => (s, some .noTxn)
+  | some l =>
+    if fr.path ∈ l then (s, some .alreadyWritten) else
+    match tick σ (.open_ fr.path) { s with txn := some (l ++ [fr.path]) } with
+    | (s2, some f) =>
+      ({ s2 with fs := if f.eff && !fr.nodir then fsSet s2.fs (tmp fr.path) [] else s2.fs }, some f.err)
+    | (s2, none) =>
+      if fr.nodir then (s2, some (.os 2))
+      else ({ s2 with fs := fsSet s2.fs (tmp fr.path) [] }, none)
+
+/-- one file written through `hOpenNoCheck` without any fault -/
+def writeFragNoCheck (fr : Frag P) (s : St P) : Res P :=
+  match hOpenNoCheck tmp σ fr s with
+  | (s1, some e) => (s1, some e)
+  | (s1, none) =>
+    match tick σ (.ser : Ev P) s1 with
+    | (s2, some f) => closeExit σ fr.path f.err s2
+    | (s2, none) =>
+      match hWrite tmp σ fr.path fr.decl s2 with
+      | (s3, some e) => closeExit σ fr.path e s3
+      | (s3, none) =>
+        match hWrite tmp σ fr.path fr.payload s3 with
+        | (s4, some e) => closeExit σ fr.path e s4
+        | (s4, none) => hClose σ fr.path s4
+
+def runBodyNoCheck : List (Frag P) → St P → Res P
+  | [], s => (s, none)
+  | f :: fs, s =>
+    match writeFragNoCheck tmp σ f s with
+    | (s1, some e) => (s1, some e)
+    | (s1, none) => runBodyNoCheck fs s1
+
+/-- the repaired `write_transaction` around writes that skip the temp-name check -/
+def saveNoCheck (dry : Bool) (frags : List (Frag P)) (s : St P) : Res P :=
+  match s.txn with
+  | some _ => (s, some .alreadyOpen)
+  | none =>
+    match runBodyNoCheck tmp σ frags { s with txn := some [] } with
+    | (s1, e1) =>
+      match (match e1 with
+             | some e => (s1, some e)
+             | none => if dry then (s1, none) else commit tmp σ (ord (s1.txn.getD [])) s1) with
+      | (s2, e2) =>
+        match cleanup tmp σ (ord (s2.txn.getD [])) { s2 with txn := none } with
+        | (s3, some e3) => (s3, some e3)
+        | (s3, none) => (s3, e2)
 
 /-- the former `finally` loop: one pass that unlinks (abort / dry run) or replaces (commit), stops at
 the first exception, and resets the transaction only if it got through -/
